@@ -32,7 +32,11 @@ class Real:
             if tok in sp:
                 return sp[tok]
             if tok in pv:
-                return param_wrap(tok, pv[tok]) if param_wrap else pv[tok]
+                if param_wrap:
+                    return param_wrap(tok, pv[tok])
+                if tok.endswith(".a") and float(pv[tok]).is_integer():
+                    return int(pv[tok])          # a whole-number exponent as a user writes it: a=2
+                return pv[tok]
             # parameters of elements that are replaced before the network is used
             return {"L": 1.0, "rho_max": 180.0, "rho_crit": 33.0, "v_free": 100.0, "a": 1.8,
                     "turnrate": 1.0, "alpha": 0.1}.get(tok.split(".")[-1], 2000.0)
@@ -67,6 +71,10 @@ class Real:
             nm = names.get(("d", d), f"D{d}")
             self.dests[d] = Destination(name=nm) if k == "free" else CongestedDestination(name=nm)
         # (a network may be called anything: names with blanks, dashes, leading digits)
+        self.read_errors = []
+        # keywords named after ELEMENT parameters passed to Network.step / to_function next to the model parameters
+        # (the project's own tests do so): every element reads its own parameters from itself, whatever is passed
+        self.stray_kwargs = {}
         self.net = Network(name=["ring road A10", "A13-north", "2nd ring", "net_1", "réseau"][len(net.ops) % 5])
         for op in net.ops:
             if reads is not None and reads.random() < 0.5:
@@ -89,9 +97,11 @@ class Real:
         construction call must not leave any of them stale"""
         n = self.net
         for attr in ("nodes_by_name", "links_by_name", "nodes_by_link", "origins", "origins_by_name",
-                     "origins_by_node", "destinations", "destinations_by_name", "destinations_by_node"):
-            getattr(n, attr)
-        list(n.elements)
+                     "origins_by_node", "destinations", "destinations_by_name", "destinations_by_node", "elements"):
+            try:
+                list(getattr(n, attr))
+            except Exception as ex:      # a read that raises is reported by the caller, it must not stop the harness
+                self.read_errors.append(f"reading {attr} of the network raised {ex!r:.200}")
         try:
             ok = n.is_valid()[0]
         except Exception:
@@ -121,6 +131,7 @@ class Real:
             kw["delta"] = val("g.delta")
         if self.desc.has_phi:
             kw["phi"] = val("g.phi")
+        kw.update(self.stray_kwargs)
         return kw
 
     # ---- check the order model against the real object ----
